@@ -1,3 +1,16 @@
+// Verification hooks: `vtrace!(conn, "event", key = value, ...)` is compiled out unless the
+// crate is built with `--cfg wtransport_verif`.
+#[cfg(wtransport_verif)]
+macro_rules! vtrace {
+    ($conn:expr, $ev:literal $(, $k:ident = $v:expr)*) => {
+        crate::driver::verif::emit($conn as u64, $ev, &[$((stringify!($k), $v as u64)),*])
+    };
+}
+#[cfg(not(wtransport_verif))]
+macro_rules! vtrace {
+    ($($t:tt)*) => {};
+}
+
 use crate::datagram::Datagram;
 use crate::driver::streams::biremote::StreamBiRemoteH3;
 use crate::driver::streams::biremote::StreamBiRemoteWT;
@@ -43,6 +56,8 @@ pub struct Driver {
     ready_bi_wt_streams: Mutex<mpsc::Receiver<StreamBiRemoteWT>>,
     ready_datagrams: Mutex<mpsc::Receiver<Datagram>>,
     driver_result: SharedResultGet<DriverError>,
+    #[cfg(wtransport_verif)]
+    vid: u64,
 }
 
 impl Driver {
@@ -54,6 +69,27 @@ impl Driver {
         let ready_datagrams = mpsc::channel(1);
         let driver_result = shared_result();
 
+        #[cfg(wtransport_verif)]
+        let vid = verif::next_conn();
+
+        // (with the hooks the worker task additionally carries its connection identifier)
+        #[cfg(wtransport_verif)]
+        tokio::spawn(verif::CONN.scope(
+            vid,
+            worker::Worker::new(
+                quic_connection.clone(),
+                ready_settings.0,
+                ready_sessions.0,
+                ready_uni_wt_streams.0,
+                ready_bi_wt_streams.0,
+                ready_datagrams.0,
+                driver_result.0,
+            )
+            .run()
+            .instrument(debug_span!("Driver", quic_id = quic_connection.stable_id())),
+        ));
+
+        #[cfg(not(wtransport_verif))]
         tokio::spawn(
             worker::Worker::new(
                 quic_connection.clone(),
@@ -76,6 +112,8 @@ impl Driver {
             ready_bi_wt_streams: Mutex::new(ready_bi_wt_streams.1),
             ready_datagrams: Mutex::new(ready_datagrams.1),
             driver_result: driver_result.1,
+            #[cfg(wtransport_verif)]
+            vid,
         }
     }
 
@@ -119,14 +157,40 @@ impl Driver {
         &self,
         session_id: SessionId,
     ) -> Result<StreamUniRemoteWT, DriverError> {
+        #[cfg(wtransport_verif)]
+        let (vconn, vcall) = (self.vid, verif::next_call());
+        #[cfg(wtransport_verif)]
+        let mut vwait = verif::CallGuard::new(vconn as u64, vcall);
+        vtrace!(vconn, "a_call", call = vcall, kind = 0);
+
         let mut lock = self.ready_uni_wt_streams.lock().await;
+
+        // (declared after `lock`: a cancelled call reports before it releases the mutex)
+        #[cfg(wtransport_verif)]
+        let mut vheld = verif::CallGuard::new(vconn as u64, vcall);
+        #[cfg(wtransport_verif)]
+        vwait.disarm();
+        vtrace!(vconn, "a_lock", call = vcall);
 
         loop {
             let Some(stream) = lock.recv().await else {
+                vtrace!(vconn, "a_none", call = vcall);
+                #[cfg(wtransport_verif)]
+                vheld.disarm();
                 return Err(self.result().await);
             };
 
+            vtrace!(
+                vconn,
+                "a_recv",
+                call = vcall,
+                id = stream.id().into_u64(),
+                matched = stream.session_id() == session_id
+            );
+
             if stream.session_id() == session_id {
+                #[cfg(wtransport_verif)]
+                vheld.disarm();
                 return Ok(stream);
             }
 
@@ -144,14 +208,40 @@ impl Driver {
     }
 
     pub async fn accept_bi(&self, session_id: SessionId) -> Result<StreamBiRemoteWT, DriverError> {
+        #[cfg(wtransport_verif)]
+        let (vconn, vcall) = (self.vid, verif::next_call());
+        #[cfg(wtransport_verif)]
+        let mut vwait = verif::CallGuard::new(vconn as u64, vcall);
+        vtrace!(vconn, "a_call", call = vcall, kind = 1);
+
         let mut lock = self.ready_bi_wt_streams.lock().await;
+
+        // (declared after `lock`: a cancelled call reports before it releases the mutex)
+        #[cfg(wtransport_verif)]
+        let mut vheld = verif::CallGuard::new(vconn as u64, vcall);
+        #[cfg(wtransport_verif)]
+        vwait.disarm();
+        vtrace!(vconn, "a_lock", call = vcall);
 
         loop {
             let Some(stream) = lock.recv().await else {
+                vtrace!(vconn, "a_none", call = vcall);
+                #[cfg(wtransport_verif)]
+                vheld.disarm();
                 return Err(self.result().await);
             };
 
+            vtrace!(
+                vconn,
+                "a_recv",
+                call = vcall,
+                id = stream.id().into_u64(),
+                matched = stream.session_id() == session_id
+            );
+
             if stream.session_id() == session_id {
+                #[cfg(wtransport_verif)]
+                vheld.disarm();
                 return Ok(stream);
             }
 
@@ -304,6 +394,17 @@ mod worker {
 
             debug!("Ended with error: {:?}", error);
 
+            vtrace!(
+                verif::conn(),
+                "w_exit",
+                cause = match &error {
+                    DriverError::ApplicationClosed(_) => 0,
+                    DriverError::Proto(_) => 1,
+                    DriverError::NotConnected if self.quic_connection.close_reason().is_some() => 2,
+                    DriverError::NotConnected => 3,
+                }
+            );
+
             match &error {
                 DriverError::ApplicationClosed(_) => {
                     // Termination procedure
@@ -326,13 +427,28 @@ mod worker {
                 }
             }
 
+            vtrace!(verif::conn(), "w_closed_quic");
+
             self.driver_result.set(error);
+
+            vtrace!(verif::conn(), "w_result");
+            vtrace!(verif::conn(), "w_done");
         }
 
         async fn run_impl(&mut self) -> Result<(), DriverError> {
             let mut remote_settings_watcher = self.remote_settings_stream.subscribe();
             let mut ready_uni_h3_streams = mpsc::channel(4);
             let mut ready_bi_h3_streams = mpsc::channel(1);
+
+            vtrace!(
+                verif::conn(),
+                "w_start",
+                uni_h3 = ready_uni_h3_streams.0.max_capacity(),
+                uni_wt = self.ready_uni_wt_streams.max_capacity(),
+                bi_h3 = ready_bi_h3_streams.0.max_capacity(),
+                bi_wt = self.ready_bi_wt_streams.max_capacity(),
+                dg = self.ready_datagrams.max_capacity()
+            );
 
             self.open_and_send_settings().await?;
 
@@ -356,11 +472,27 @@ mod worker {
                     }
 
                     uni_h3_stream = ready_uni_h3_streams.1.recv() => {
+                        vtrace!(
+                            verif::conn(),
+                            "w_h3",
+                            kind = 0,
+                            bad = matches!(uni_h3_stream, Some(Err(_)))
+                        );
                         let uni_h3_stream = uni_h3_stream.expect("Sender cannot be dropped")?;
                         self.handle_uni_h3_stream(uni_h3_stream)?;
                     }
 
                     bi_h3_stream = ready_bi_h3_streams.1.recv() => {
+                        vtrace!(
+                            verif::conn(),
+                            "w_h3",
+                            kind = 1,
+                            bad = matches!(bi_h3_stream, Some(Err(_))),
+                            id = match &bi_h3_stream {
+                                Some(Ok(s)) => s.0.id().into_u64(),
+                                _ => 0,
+                            }
+                        );
                         let (bi_h3_stream, first_frame) = bi_h3_stream.expect("Sender cannot be dropped")?;
                         self.handle_bi_h3_stream(bi_h3_stream, first_frame)?;
                     }
@@ -441,6 +573,10 @@ mod worker {
             let stream_id = stream_quic.id();
             debug!("New incoming uni stream ({})", stream_id);
 
+            #[cfg(wtransport_verif)]
+            let vconn = verif::conn();
+            vtrace!(vconn, "w_pull", kind = 0, id = stream_id.into_u64());
+
             tokio::spawn(
                 async move {
                     let stream_h3 = match stream_quic.upgrade().await {
@@ -449,13 +585,18 @@ mod worker {
                             // Unknown stream type: reading is aborted, but this is not
                             // a connection error.
                             debug!("Unknown stream type, stream discarded");
+                            vtrace!(vconn, "t_end", kind = 0, id = stream_id.into_u64(), how = 3);
                             return;
                         }
                         Err(ProtoReadError::H3(error_code)) => {
+                            #[cfg(wtransport_verif)]
+                            let _vorder = verif::order_lock();
+                            vtrace!(vconn, "t_end", kind = 0, id = stream_id.into_u64(), how = 2);
                             h3_slot.send(Err(DriverError::Proto(error_code)));
                             return;
                         }
                         Err(ProtoReadError::IO(_)) => {
+                            vtrace!(vconn, "t_end", kind = 0, id = stream_id.into_u64(), how = 3);
                             return;
                         }
                     };
@@ -465,8 +606,14 @@ mod worker {
 
                     if matches!(stream_kind, StreamKind::WebTransport) {
                         let stream_wt = stream_h3.upgrade();
+                        #[cfg(wtransport_verif)]
+                        let _vorder = verif::order_lock();
+                        vtrace!(vconn, "t_end", kind = 0, id = stream_id.into_u64(), how = 0);
                         wt_slot.send(stream_wt);
                     } else {
+                        #[cfg(wtransport_verif)]
+                        let _vorder = verif::order_lock();
+                        vtrace!(vconn, "t_end", kind = 0, id = stream_id.into_u64(), how = 1);
                         h3_slot.send(Ok(stream_h3));
                     }
                 }
@@ -502,6 +649,10 @@ mod worker {
             let stream_id = stream_quic.id();
             debug!("New incoming bi stream ({})", stream_id);
 
+            #[cfg(wtransport_verif)]
+            let vconn = verif::conn();
+            vtrace!(vconn, "w_pull", kind = 1, id = stream_id.into_u64());
+
             tokio::spawn(
                 async move {
                     let mut stream_h3 = stream_quic.upgrade();
@@ -515,10 +666,14 @@ mod worker {
                                 }
                             }
                             Err(ProtoReadError::H3(error_code)) => {
+                                #[cfg(wtransport_verif)]
+                                let _vorder = verif::order_lock();
+                                vtrace!(vconn, "t_end", kind = 1, id = stream_id.into_u64(), how = 2);
                                 h3_slot.send(Err(DriverError::Proto(error_code)));
                                 return;
                             }
                             Err(ProtoReadError::IO(_)) => {
+                                vtrace!(vconn, "t_end", kind = 1, id = stream_id.into_u64(), how = 3);
                                 return;
                             }
                         }
@@ -529,9 +684,15 @@ mod worker {
                     match frame.session_id() {
                         Some(session_id) => {
                             let stream_wt = stream_h3.upgrade(session_id);
+                            #[cfg(wtransport_verif)]
+                            let _vorder = verif::order_lock();
+                            vtrace!(vconn, "t_end", kind = 1, id = stream_id.into_u64(), how = 0);
                             wt_slot.send(stream_wt);
                         }
                         None => {
+                            #[cfg(wtransport_verif)]
+                            let _vorder = verif::order_lock();
+                            vtrace!(vconn, "t_end", kind = 1, id = stream_id.into_u64(), how = 1);
                             h3_slot.send(Ok((stream_h3, frame)));
                         }
                     }
@@ -689,3 +850,6 @@ mod worker {
 
 pub(crate) mod streams;
 pub(crate) mod utils;
+
+#[cfg(wtransport_verif)]
+pub mod verif;
